@@ -176,7 +176,7 @@ fn fixed_once(ctx: &Ctx) -> CaseInfo {
     eval(&c, ctx)
 }
 
-/// Scale: the projected variable reaches its value through a chain of up to 400 (thorough 2000)
+/// Scale: the projected variable reaches its value through a chain of up to 400 (thorough 1000)
 /// aliases posted head-first, tail-first or shuffled, or is bound to a term with a spine of that
 /// many levels containing variables that are bound only afterwards. One state reaches the goal.
 fn run_scale(bytes: &[u8], ctx: &Ctx) -> CaseInfo {
@@ -261,11 +261,11 @@ pub fn witness_pub() -> Option<String> {
 pub fn def() -> PropertyDef {
     PropertyDef {
         id: "C11",
-        rule: "a prefix that makes 0-4 states reach `project |x| { body }` (x == k, member(x, [...]), conde, append-derived, partially ground list) optionally binding a second projected variable, bodies using the projected value non-relationally through fngoals (x*x, x+k, is-ground-integer), alone, in conjunction, inside conde or closure (resumed later), optionally followed by a disequality. Oracle: reference interpreter (project = evaluate the body on the walked value in that state), equal multisets, no panic. Non-trivial = the project goal is reached by >=2 states or the body is resumed later; distinct = hash of the printed program. Failures with >=2 reaching states are the listed finding C11-project-reached-twice; everything with one reaching state is checked without suppression. Family `scale` (one reaching state): the projected variable reaches its value through a chain of up to 400 (thorough 2000) aliases posted head-first / tail-first / shuffled, or is bound to a term with a spine of that many levels (six shapes) containing variables bound before or after; bodies test groundness of the projected value or compute with it",
+        rule: "a prefix that makes 0-4 states reach `project |x| { body }` (x == k, member(x, [...]), conde, append-derived, partially ground list) optionally binding a second projected variable, bodies using the projected value non-relationally through fngoals (x*x, x+k, is-ground-integer), alone, in conjunction, inside conde or closure (resumed later), optionally followed by a disequality. Oracle: reference interpreter (project = evaluate the body on the walked value in that state), equal multisets, no panic. Non-trivial = the project goal is reached by >=2 states or the body is resumed later; distinct = hash of the printed program. Failures with >=2 reaching states are the listed finding C11-project-reached-twice; everything with one reaching state is checked without suppression. Family `scale` (one reaching state): the projected variable reaches its value through a chain of up to 400 (thorough 1000) aliases posted head-first / tail-first / shuffled, or is bound to a term with a spine of that many levels (six shapes) containing variables bound before or after; bodies test groundness of the projected value or compute with it",
         assumptions: vec!["reference interpreter correct"],
         families: vec![
             Family { name: "project", max_len: 64, quick: 100_000, thorough: 2_000_000, run: run_family },
-            Family { name: "scale", max_len: 48, quick: 20_000, thorough: 300_000, run: run_scale },
+            Family { name: "scale", max_len: 48, quick: 20_000, thorough: 200_000, run: run_scale },
         ],
         fixed: vec![Fixed { name: "reached-once-resumed-body", run: fixed_once }],
         witnesses: vec![Witness { finding: FINDING, run: witness }],
